@@ -170,7 +170,6 @@ func registry() []PropSpec {
 			ID: "C06",
 			Quick: []HarnessSpec{
 				{Pkg: pkgCC, Func: "H06a_q", Unwind: 8, TimeoutMs: 400000, Solvers: []string{"z3-new"}, JobSecs: 900, Note: "features: each of the 5 axis lists of symbolic length <=2 with arbitrary (repeated, unordered) valid enum elements, 7 tri-state flags; arbitrary probe case (all 10 fields symbolic, including out-of-range values)"},
-				{Pkg: pkgCC, Func: "H06p_q", Unwind: 8, UnwindFor: map[string]int{"parseConfig": 80, "h06p": 80}, NoDedupe: true, TimeoutMs: 300000, Solvers: []string{"z3-new"}, JobSecs: 1200, Cap: 64, Note: "parseConfig set algebra: features with exactly one entry per axis list and 7 tri-state flags, <=1 include and <=1 exclude entry (every field set or omitted), arbitrary probe case: result == (features + include) - exclude, contradictory or empty configurations rejected"},
 				{Pkg: pkgCC, Func: "H06r2_q", Unwind: 8, TimeoutMs: 600000, Solvers: []string{"z3-new"}, JobSecs: 1200, Note: "two include/exclude entries (every field independently set or omitted) resolved in sequence against symbolic features (axis lists of length <=1, 7 tri-state flags); arbitrary probe case"},
 			},
 			Thorough: []HarnessSpec{
